@@ -36,6 +36,8 @@ import PsutilModel.Proofs.C01Args
 import PsutilModel.Proofs.C01Hid
 import PsutilModel.Proofs.C01Rdb
 import PsutilModel.Proofs.C01Pid0
+import PsutilModel.Proofs.C01Stat
+import PsutilModel.Spec.C01Stat
 import PsutilModel.Model.C01Gen
 namespace Psutil.C01
 open Spec
@@ -692,5 +694,176 @@ example :
 example :
     (step cfg (run cfg (St.init 1000) [.k (.spawn 7), .k (.hide 7 true), .c (.newObj 7), .k (.reap 7),
         .k (.spawn 7), .k (.hide 7 false)]) (.c (.signal 0 .kill))).2 = .exc (.noSuchProcess 7) := by decide
+
+/-! ## The bytes of `/proc/<pid>/stat` — command names and the other fields as a dimension of the histories
+
+The identity `(pid, create_time)` that the reuse guard compares is PARSED from the line the kernel publishes:
+`pid (comm) state ppid … starttime …` (proc(5)).  `comm` is chosen by the process itself (`prctl(PR_SET_NAME)`, the
+executable's name): any bytes — spaces, parentheses, `) `, newlines, text that looks like the rest of a stat line.
+Every theorem above takes what psutil sees of an incarnation as a number (`Inst.stamp`).  Here the simulated kernel
+keeps, per incarnation, its comm and the other fields (Model/C01Stat.lean: `InstB`, `statLine`), a history says at each
+spawn what the new incarnation shows and may REWRITE the line of a living process (`KEvB.rewrite`), and psutil runs
+on the kernel as its reader makes it out of those bytes (`readStat` with the extracted shape `scfg`, `view`, `stepB`).
+The specification does not look at the bytes (Spec/C01Stat.lean: `ListedB`, `StB.toSt`).
+Hypothesis `HistWF`: the lines are in the kernel's format (a state letter, 17 numbers between ppid and starttime, at
+least 17 after it).  NO hypothesis on any comm. -/
+
+/-- **scfg_good** (obligation on the translator's facts `statSearch`, `statNeedle`, `statSkip`, `statSplit`,
+    `statCtimeIdx`, `statStatusIdx`, `createReads` — extracted by following the data flow of `_parse_stat_file`, helper
+    functions inlined): the end of the name is the LAST `)` of the file, the fields are what follows two bytes further,
+    split at runs of whitespace, field 19 is stored as 'create_time' and field 0 as 'status', and `create_time()` is
+    `float(<stat record>['create_time']) / CLOCK_TICKS` + boot time.  Stops building when the name is delimited any
+    other way (first `)`, first `) `, a fixed width, a regular expression …), when another field is taken, or when the
+    shape is no longer recognised. -/
+theorem scfg_good :
+    scfgRaw.Good ∧ Gen.C01.statSearch = "rfind" ∧ Gen.C01.statSplit = "ws"
+      ∧ Gen.C01.createReads = "float(create_time)/CLOCK_TICKS" ∧ scfg = scfgRaw := by
+  refine ⟨?_, ?_, ?_, ?_, ?_⟩ <;> decide
+
+theorem scfg_is_good : scfg.Good := scfg_good.2.2.2.2 ▸ scfg_good.1
+
+/-- **C01_stat_identity_any_comm.** Whatever bytes an incarnation shows as its command name (`x.comm`: unconstrained),
+    whatever its other fields, psutil's reader recovers from its stat line exactly the kernel's starttime and whether
+    it is a zombie — the two things the identity machine sees of it. -/
+theorem C01_stat_identity_any_comm (x : InstB) (hwf : x.aux.WF) :
+    readStat scfg (statLine x) = .ok x.stamp x.zombie := readStat_statLine scfg_is_good x hwf
+
+/-- **C01_stat_bytes_refine.** Every byte-level history (any comm at every spawn, lines rewritten while processes
+    live) runs exactly as the history of Model/C01.lean it stands for, and in the state it reaches every psutil call
+    has the outcome, the effects and the objects of that model's call on the kernel's own table. -/
+theorem C01_stat_bytes_refine (b0 : Nat) (h : List EvB) (hwf : HistWF h) :
+    (runB scfg cfg (StB.init b0) h).toSt = run cfg (St.init b0) (h.map EvB.erase)
+    ∧ ∀ call, (stepB scfg cfg (runB scfg cfg (StB.init b0) h) (.c call)).2
+          = some (step cfg (runB scfg cfg (StB.init b0) h).toSt (.c call)).2
+        ∧ (stepB scfg cfg (runB scfg cfg (StB.init b0) h) (.c call)).1.toSt
+          = (step cfg (runB scfg cfg (StB.init b0) h).toSt (.c call)).1 := by
+  obtain ⟨h1, h2⟩ := runB_toSt scfg_is_good cfg h (StB.init b0) (init_wf b0) hwf
+  refine ⟨h1, fun call => ?_⟩
+  obtain ⟨a, b, _⟩ := stepB_good scfg_is_good cfg _ h2 call
+  exact ⟨a, b⟩
+
+/-- **C01_recycled_raises_NSP_any_stat_bytes.** The recycling clause over the byte dimension: after ANY history in
+    which every incarnation shows any command name and any other fields (the first holder of the PID and the later
+    ones alike: the same name, names of the same shape, names containing `) `, names that spell out a whole fake
+    stat tail), when the incarnation an object was built for has left the process table, every signal method and
+    every setter raises NoSuchProcess(pid) and nothing is handed to the OS. -/
+theorem C01_recycled_raises_NSP_any_stat_bytes (b0 : Nat) (h : List EvB) (hwf : HistWF h)
+    (hh : HistOK true (h.map EvB.erase)) (call : Call)
+    (i : Nat) (o : PObj) (htg : call.target = some i) (hec : isEffectCall call = true)
+    (ho : (runB scfg cfg (StB.init b0) h).ps.objs[i]? = some o)
+    (hgone : ¬ ListedB (runB scfg cfg (StB.init b0) h).kern o) :
+    (stepB scfg cfg (runB scfg cfg (StB.init b0) h) (.c call)).2 = some (.exc (.noSuchProcess o.pid))
+      ∧ (stepB scfg cfg (runB scfg cfg (StB.init b0) h) (.c call)).1.log = (runB scfg cfg (StB.init b0) h).log := by
+  obtain ⟨hrun, hcall⟩ := C01_stat_bytes_refine b0 h hwf
+  obtain ⟨hout, hst⟩ := hcall call
+  have ho' : (run cfg (St.init b0) (h.map EvB.erase)).ps.objs[i]? = some o := by rw [← hrun]; exact ho
+  have hgone' : ¬ Listed (run cfg (St.init b0) (h.map EvB.erase)).kern o := by
+    rw [← hrun]; exact fun hl => hgone ((listedB_forget _ o).2 hl)
+  obtain ⟨h1, h2⟩ := C01_recycled_raises_NSP b0 (h.map EvB.erase) hh call i o htg hec ho' hgone'
+  rw [← hrun] at h1 h2
+  refine ⟨by rw [hout, h1], ?_⟩
+  have := congrArg St.log hst
+  rw [h2] at this
+  exact this
+
+/-- **C01_no_wrong_owner_any_stat_bytes.** After any such history every OS call psutil ever made reached the very
+    incarnation the asking object was built for, under exactly the object's PID, and no signal went to a PID ≤ 0. -/
+theorem C01_no_wrong_owner_any_stat_bytes (b0 : Nat) (h : List EvB) (hwf : HistWF h)
+    (hh : HistOK true (h.map EvB.erase)) :
+    ∀ e ∈ (runB scfg cfg (StB.init b0) h).log, EffOK (runB scfg cfg (StB.init b0) h).ps.objs e := by
+  have hrun := (C01_stat_bytes_refine b0 h hwf).1
+  have := C01_no_wrong_owner b0 (h.map EvB.erase) hh
+  rw [← hrun] at this
+  exact this
+
+/-- **C01_live_signal_delivered_any_stat_bytes.** The guard refuses nothing it should not, whatever the names: a
+    signal method on an object whose own incarnation still holds the PID (> 0) — however often that process has
+    renamed itself or its counters have moved since the object was built — makes exactly one `os.kill(pid, sig)`. -/
+theorem C01_live_signal_delivered_any_stat_bytes (b0 : Nat) (h : List EvB) (hwf : HistWF h)
+    (hh : HistOK true (h.map EvB.erase)) (i : Nat) (o : PObj) (m : SigMethod)
+    (ho : (runB scfg cfg (StB.init b0) h).ps.objs[i]? = some o)
+    (hlive : ListedB (runB scfg cfg (StB.init b0) h).kern o) (hpid : o.pid ≠ 0) :
+    (stepB scfg cfg (runB scfg cfg (StB.init b0) h) (.c (.signal i m))).2
+        = some (outOf o.pid ((runB scfg cfg (StB.init b0) h).kern.forget.refusal o.pid))
+      ∧ (stepB scfg cfg (runB scfg cfg (StB.init b0) h) (.c (.signal i m))).1.log
+          = ⟨.kill, i, o.pid, [(sigNumber m : Int)], some o.ghost, (runB scfg cfg (StB.init b0) h).kern.forget.refusal o.pid⟩
+              :: (runB scfg cfg (StB.init b0) h).log := by
+  obtain ⟨hrun, hcall⟩ := C01_stat_bytes_refine b0 h hwf
+  obtain ⟨hout, hst⟩ := hcall (.signal i m)
+  have ho' : (run cfg (St.init b0) (h.map EvB.erase)).ps.objs[i]? = some o := by rw [← hrun]; exact ho
+  have hlive' : Listed (run cfg (St.init b0) (h.map EvB.erase)).kern o := by
+    rw [← hrun]; exact (listedB_forget _ o).1 hlive
+  obtain ⟨h1, h2⟩ := C01_live_signal_delivered b0 (h.map EvB.erase) hh i o m ho' hlive' hpid
+  rw [← hrun] at h1 h2
+  refine ⟨by rw [hout, h1]; rfl, ?_⟩
+  have := congrArg St.log hst
+  rw [h2] at this
+  exact this
+
+/-! ### WHAT-IF: a reader that stops at the first `) ` (the shape of seeded change C01-6) -/
+
+/-- `C01_no_wrong_owner_any_stat_bytes` for an arbitrary reader -/
+def NoWrongOwner_AnyStatBytes_Full (sc : StatCfg) (c : Cfg) : Prop :=
+  ∀ (b0 : Nat) (h : List EvB), HistWF h → HistOK c.createNoneTest (h.map EvB.erase) →
+    ∀ e ∈ (runB sc c (StB.init b0) h).log, EffOK (runB sc c (StB.init b0) h).ps.objs e
+
+/-- `rpar = data.find(b') ')`: the name ends at the FIRST closing parenthesis that is followed by a space -/
+def scfgFirstRparSp : StatCfg := ⟨.find, [41, 32], 2, 19, 0⟩
+
+/-- a line with zeros in every other field -/
+def auxZero : Aux := ⟨83, 1, List.replicate 17 0, List.replicate 30 0⟩
+
+/-- PID 7 belongs to a process called `a) b`; an object is built; the process is reaped; PID 7 goes to a process
+    called `c) d`; kill() through the old object -/
+def witnessRparSp : List EvB :=
+  [.k (.spawn 7 [97, 41, 32, 98] auxZero), .c (.newObj 7), .k (.reap 7), .k (.spawn 7 [99, 41, 32, 100] auxZero),
+   .c (.signal 0 .kill)]
+
+example : HistWF witnessRparSp ∧ HistOK true (witnessRparSp.map EvB.erase) := by decide
+
+/-- with the extracted reader the last call of the witness is refused and nothing is delivered (the hypotheses of
+    `C01_recycled_raises_NSP_any_stat_bytes` are met by a state in which the PID is recycled by a `c) d`) -/
+example : (stepB scfg cfg (runB scfg cfg (StB.init 1000) (witnessRparSp.take 4)) (.c (.signal 0 .kill))).2
+      = some (.exc (.noSuchProcess 7))
+    ∧ (runB scfg cfg (StB.init 1000) witnessRparSp).toSt.log = [] := by
+  have h4 := (C01_stat_bytes_refine 1000 (witnessRparSp.take 4) (by decide)).1
+  have h5 := (C01_stat_bytes_refine 1000 witnessRparSp (by decide)).1
+  refine ⟨(C01_recycled_raises_NSP_any_stat_bytes 1000 (witnessRparSp.take 4) (by decide) (by decide) (.signal 0 .kill) 0
+      ⟨7, some (0 + cfg.clk * 1000), some (0 + cfg.clk * 1000), false, false, 0⟩ rfl rfl ?_ ?_).1, ?_⟩
+  · show (runB scfg cfg (StB.init 1000) (witnessRparSp.take 4)).toSt.ps.objs[0]? = _
+    rw [h4]; decide
+  · intro hl
+    have := (listedB_forget _ _).1 hl
+    change Listed (runB scfg cfg (StB.init 1000) (witnessRparSp.take 4)).toSt.kern _ at this
+    rw [h4, ← listedB_iff] at this
+    revert this; decide
+  · rw [h5]; decide
+
+/-- the two holders of PID 7 in `witnessRparSp`: different processes (start 0 and start 1) -/
+def holderA : InstB := ⟨7, 0, false, 0, [97, 41, 32, 98], auxZero⟩
+def holderC : InstB := ⟨7, 1, false, 1, [99, 41, 32, 100], auxZero⟩
+
+/-- **C01_first_rpar_space_counterexample** (WHAT-IF, the shape of seeded change C01-6; not the checked source).  A
+    reader that ends the name at the first `) ` takes field 21 (itrealvalue) for the start time of a process called
+    `a) b`: the two holders of PID 7 — different processes, different starttimes — read as the same `(stamp, state)`,
+    so the reuse guard cannot tell them apart; the extracted reader tells them apart
+    (`C01_stat_identity_any_comm`).  The full statement `NoWrongOwner_AnyStatBytes_Full scfgFirstRparSp cfg` fails on
+    `witnessRparSp`; that history is replayed on the real code by the check (corpus `stat-bytes`, family
+    `stat_bytes`, sweep `exhaustive_stat`). -/
+theorem C01_first_rpar_space_counterexample :
+    readStat scfgFirstRparSp (statLine holderA) = readStat scfgFirstRparSp (statLine holderC)
+    ∧ readStat scfgFirstRparSp (statLine holderA) = .ok 0 false
+    ∧ readStat scfg (statLine holderA) ≠ readStat scfg (statLine holderC) := by
+  have hA : statLine holderA = [55, 32, 40, 97, 41, 32, 98, 41, 32, 83, 32, 49] ++ (List.replicate 17 [32, 48]).flatten
+      ++ [32, 48] ++ (List.replicate 30 [32, 48]).flatten ++ [10] := by
+    simp [statLine, statTail, holderA, auxZero, stateTok, renderDec_small, renderInt, joinWith]
+  have hC : statLine holderC = [55, 32, 40, 99, 41, 32, 100, 41, 32, 83, 32, 49] ++ (List.replicate 17 [32, 48]).flatten
+      ++ [32, 49] ++ (List.replicate 30 [32, 48]).flatten ++ [10] := by
+    simp [statLine, statTail, holderC, auxZero, stateTok, renderDec_small, renderInt, joinWith]
+  refine ⟨?_, ?_, ?_⟩
+  · rw [hA, hC]; decide
+  · rw [hA]; decide
+  · rw [C01_stat_identity_any_comm holderA (by decide), C01_stat_identity_any_comm holderC (by decide)]
+    decide
 
 end Psutil.C01
